@@ -1,6 +1,8 @@
 import NomtModel.Core.PathProofExec
 import NomtModel.Core.PathUpdateExec
 import NomtModel.Core.TermHasher
+import NomtModel.Core.UpdateNoPanic
+import NomtModel.Core.Complete
 /-!
 # C18 — Proof verifiers are total: any input gets a verdict, never a panic
 
@@ -29,5 +31,65 @@ theorem T18_1b_confirm_total (L : Nat) (P : PathProof Node VH) (kp : List Bool) 
 /-- non-vacuity: a 300-sibling proof against a 256-bit key is rejected, not sliced -/
 example : verifyO TH 4 { terminal := .terminator [], siblings := List.replicate 9 T.term }
     [true, false, true, true] T.term = .err .tooManySiblings := by rfl
+
+/-- T18.2: `verify_update` (path_proof.rs) returns a verdict and never panics when every path was produced by
+`PathProof::verify` against the same trusted root — the root of a canonical set `S` of `L`-bit keys — and
+the op keys are `L`-bit keys.  The two panic sites, the `skip - (n + 1)` underflow between consecutive
+paths and the out-of-range slice in `build_trie`, are unreachable: under `H.Sound` one verified path is
+never a proper prefix of another, and the spliced ops of a path are distinct full-length keys under it.
+(Ops and paths themselves are arbitrary: unsorted / out-of-scope / empty inputs get an `err` verdict.) -/
+theorem T18_2_verify_update_no_panic (hs : H.Sound) (L : Nat) (S : List (Key × VH)) (hc : Canon L 0 S)
+    (hlen : ∀ kv ∈ S, kv.1.length = L) (paths : List (PathUpdateIn Node VH))
+    (hv : ∀ p ∈ paths, ∃ P kp, kp.length = L ∧ verify H L P kp (nodeAt H L 0 S) = .ok p.inner)
+    (hol : ∀ p ∈ paths, ∀ o ∈ p.ops, o.1.length = L) :
+    (pathVerifyUpdate H L (nodeAt H L 0 S) paths).isPanic = false :=
+  pathVerifyUpdate_no_panic H hs L S hc hlen paths
+    (fun p hp => let ⟨P, kp, _, h⟩ := hv p hp; ⟨P, kp, h⟩) hol
+
+/-- T18.2, positive half: when moreover the argument checks pass, the call reaches the hashing loop, i.e.
+returns `ok` of the core `verifyUpdate` on the prepared paths. -/
+theorem T18_2_verify_update_ok (hs : H.Sound) (L : Nat) (S : List (Key × VH)) (hc : Canon L 0 S)
+    (hlen : ∀ kv ∈ S, kv.1.length = L) (paths : List (PathUpdateIn Node VH)) (hne : paths ≠ [])
+    (hv : ∀ p ∈ paths, ∃ P kp, kp.length = L ∧ verify H L P kp (nodeAt H L 0 S) = .ok p.inner)
+    (hol : ∀ p ∈ paths, ∀ o ∈ p.ops, o.1.length = L)
+    (hchk : checkPaths (nodeAt H L 0 S) none paths = none) :
+    pathVerifyUpdate H L (nodeAt H L 0 S) paths
+      = .ok (verifyUpdate H (nodeAt H L 0 S) (paths.map (toUpd H))) :=
+  pathVerifyUpdate_of_checks H hs L S hc hlen paths hne
+    (fun p hp => let ⟨P, kp, _, h⟩ := hv p hp; ⟨P, kp, h⟩) hol hchk
+
+/-! Non-vacuity of T18.2: a three-key set over the term hasher, two honestly verified paths with ops. -/
+def exS : List (Key × Nat) := [([false, false], 7), ([false, true], 8), ([true, true], 9)]
+def exV (k : Key) : Verified T Nat :=
+  match verify TH 2 (proveSpec TH 2 exS k) k (nodeAt TH 2 0 exS) with
+  | .ok v => v
+  | .error _ => ⟨[], none, [], T.term⟩
+def exPaths : List (PathUpdateIn T Nat) :=
+  [ { inner := exV [false, true], ops := [([false, true], some 5)] },
+    { inner := exV [true, false], ops := [([true, false], some 1), ([true, true], none)] } ]
+
+example : (pathVerifyUpdate TH 2 (nodeAt TH 2 0 exS) exPaths).isPanic = false := by
+  apply T18_2_verify_update_no_panic TH TH_sound 2 exS (by simp [exS, Canon, side]) (by simp [exS])
+  · intro p hp
+    simp only [exPaths, List.mem_cons, List.not_mem_nil, or_false] at hp
+    rcases hp with rfl | rfl
+    · exact ⟨proveSpec TH 2 exS [false, true], [false, true], rfl, rfl⟩
+    · exact ⟨proveSpec TH 2 exS [true, false], [true, false], rfl, rfl⟩
+  · simp only [exPaths]; decide
+example : checkPaths (nodeAt TH 2 0 exS) none exPaths = none := by decide
+/-- without the trust assumption the panic site is live: a "verified" object whose path is a proper prefix
+of the next one (impossible output of `verify` for one root) makes the mirror panic -/
+example : (pathVerifyUpdate TH 2 T.term
+    [ { inner := ⟨[false], none, [T.term], T.term⟩, ops := [([false, false], some 1)] },
+      { inner := ⟨[false, true], none, [T.term, T.term], T.term⟩, ops := [([false, true], some 1)] } ]).isPanic
+    = true := by decide
+
+/-- the trust assumption on the root is necessary for the `build_trie` site too: against an ill-formed root
+(a leaf for key `10` stored under position `0`, which no canonical set has) `verify` accepts a path, the
+checks pass, and `build_trie` is handed two keys that agree on every bit after `skip` -/
+def badRoot : T := .node (.leaf [true, false] 7) .term
+example : ∃ v, verify TH 2 { terminal := .leaf [true, false] 7, siblings := [T.term] } [false, false] badRoot = .ok v ∧
+    (pathVerifyUpdate TH 2 badRoot [ { inner := v, ops := [([false, false], some 1)] } ]).isPanic = true :=
+  ⟨_, rfl, by decide⟩
 
 end Nomt.C18
